@@ -310,9 +310,12 @@ Json genSolverSession(Rng &r, const std::string &tier, int forceNs = -1) {
     int n = large ? r.range(20, 200) : r.range(2, 12);
     Json vars = Json::arr();
     std::vector<double> ws{1, 1, 1, 2, 10, 0.5, 1000}, ss{1, 1, 2, 0.5, 3};
+    // swarm member: tenths instead of integers -- sums like 0.1 + 0.2 versus 0.3 put exact ties a rounding error apart
+    // (slacks of -5e-17 instead of 0), the regime of the solvers' zero thresholds
+    bool tenths = r.chance(0.2);
     for (int i = 0; i < n; i++) {
         Json v = Json::arr();
-        v.push((double)r.range(-10, 10) * (large ? 5 : 1));
+        v.push(tenths ? (double)r.range(-30, 30) * 0.1 + (r.chance(0.3) ? 0.1 + 0.2 : 0.0) : (double)r.range(-10, 10) * (large ? 5 : 1));
         v.push(r.pick(ws));
         v.push(scales ? r.pick(ss) : 1.0);
         vars.push(v);
@@ -323,7 +326,7 @@ Json genSolverSession(Rng &r, const std::string &tier, int forceNs = -1) {
             if (a == b) continue;
             if (!cycles && a > b) std::swap(a, b);
             Json c = Json::arr();
-            c.push(a); c.push(b); c.push((double)r.range(-2, 6)); c.push(equalities && r.chance(0.17) ? 1 : 0);
+            c.push(a); c.push(b); c.push(tenths ? (double)r.range(-6, 12) * 0.1 : (double)r.range(-2, 6)); c.push(equalities && r.chance(0.17) ? 1 : 0);
             return c;
         }
     };
@@ -345,7 +348,7 @@ Json genSolverSession(Rng &r, const std::string &tier, int forceNs = -1) {
             if (what >= 1) {
                 Json o = Json::obj(); o.set("op", "desired"); Json sl = Json::arr();
                 int k = r.range(1, std::min(n, 8));
-                for (int j = 0; j < k; j++) { Json e = Json::arr(); e.push((long)r.below(n)); e.push((double)r.range(-20, 20) * (large ? 5 : 1)); sl.push(e); }
+                for (int j = 0; j < k; j++) { Json e = Json::arr(); e.push((long)r.below(n)); e.push(tenths ? (double)r.range(-40, 40) * 0.1 : (double)r.range(-20, 20) * (large ? 5 : 1)); sl.push(e); }
                 o.set("set", sl); ops.push(o);
             }
         }
